@@ -100,9 +100,47 @@ Definition ts_at (s : string) : bool :=
       else false
   | EmptyString => false
   end.
-(* rTimestamp.FindString: "" when there is no match *)
+(* after the repair e6d6379 the regexp is: GROUP1 = 2 d{7} any d{2}:d{2}:d{2} with optional .d{3}; then optionally a dot and a run of
+   bytes other than dot and slash; then optionally _c; then .dat at the END of the string.  timestamp(file) is GROUP1: the stamp (with
+   milliseconds when present) that ENDS the base name.  (Before the repair: the leftmost 17-byte match anywhere in the path - F6a, F6c.) *)
+Fixpoint no_dot_slash (s : string) : bool :=
+  match s with "" => true | String c r => negb (Ascii.eqb c "."%char) && negb (Ascii.eqb c "/"%char) && no_dot_slash r end.
+(* does s match the part of the regexp after GROUP1 ? *)
+Definition tail_ok (s : string) : bool :=
+  let n := String.length s in
+  if Nat.leb 4 n then
+    if String.eqb (drop (n - 4) s) ".dat" then
+      let s' := take (n - 4) s in
+      String.eqb s' "" || String.eqb s' "_c"
+      || match s' with String c r => Ascii.eqb c "."%char && no_dot_slash r | EmptyString => false end
+    else false
+  else false.
+Definition ms_at (s : string) : bool :=
+  match s with
+  | String c0 (String c1 (String c2 (String c3 _))) => Ascii.eqb c0 "."%char && is_digit c1 && is_digit c2 && is_digit c3
+  | _ => false
+  end.
+(* the match attempt at the beginning of s (leftmost-first: the optional milliseconds are preferred) *)
+Definition ts_match (s : string) : option string :=
+  if ts_at s then
+    let r := drop 17 s in
+    if (if ms_at r then tail_ok (drop 4 r) else false) then Some (take 21 s)
+    else if tail_ok r then Some (take 17 s) else None
+  else None.
 Fixpoint find_ts (s : string) : string :=
-  if ts_at s then take 17 s else match s with "" => "" | String _ r => find_ts r end.
+  match ts_match s with
+  | Some t => t
+  | None => match s with "" => "" | String _ r => find_ts r end
+  end.
+
+(* escapeGlob (8ffc003): a backslash in front of every backslash, star, question mark and opening bracket *)
+Fixpoint esc_glob (s : string) : string :=
+  match s with
+  | "" => ""
+  | String c r =>
+      if Ascii.eqb c "\"%char || Ascii.eqb c "*"%char || Ascii.eqb c "?"%char || Ascii.eqb c "["%char
+      then String "\"%char (String c (esc_glob r)) else String c (esc_glob r)
+  end.
 
 Fixpoint rindex_from (s : string) (c : ascii) (i : nat) (acc : option nat) : option nat :=
   match s with "" => acc | String a r => rindex_from r c (S i) (if Ascii.eqb a c then Some i else acc) end.
@@ -262,24 +300,24 @@ Fixpoint glob_dirs (pat : string) (st : fs) (ds : list string) (acc : list fent)
       | GOk l => glob_dirs pat st r (acc ++ l)
       end
   end.
+(* the directory part is globbed first when it has metacharacters: Match(dirpat, name) for every entry of loc, in byte order *)
+Fixpoint sel_dirs (dirpat : string) (l : list string) : option (list string) :=
+  match l with
+  | [] => Some []
+  | d :: r => match go_match dirpat d with
+              | None => None
+              | Some b => match sel_dirs dirpat r with None => None | Some r' => Some (if b then d :: r' else r') end
+              end
+  end.
 Definition glob (st : fs) (dirpat filepat : string) : gres :=
   match go_match (loc ++ "/" ++ dirpat ++ "/" ++ filepat) "" with
   | None => GErr
   | Some _ =>
       if has_meta dirpat then
-        (* the directory part is globbed first: Match(dirpat, name) for every entry of loc *)
         match go_match (loc ++ "/" ++ dirpat) "" with
         | None => GErr
         | Some _ =>
-            let fix sel (l : list string) : option (list string) :=
-              match l with
-              | [] => Some []
-              | d :: r => match go_match dirpat d with
-                          | None => None
-                          | Some b => match sel r with None => None | Some r' => Some (if b then d :: r' else r') end
-                          end
-              end in
-            match sel (isort String.ltb (dirs st)) with
+            match sel_dirs dirpat (isort String.ltb (dirs st)) with
             | None => GErr
             | Some ds => glob_dirs filepat st ds []
             end
@@ -292,9 +330,11 @@ Definition ts_of (e : fent) : string := find_ts (fpath (e_dir e) (e_name e)).
 Definition filter_latest (l : list fent) (n : nat) : list fent :=
   firstn n (map snd (sort_desc fst (map (fun e => (ts_of e, e)) l))).
 
-Definition pat_all (d : string) : string := prefix_of d ++ "*.dat".                    (* globPattern *)
+(* the patterns are built from the ESCAPED directory and prefix (8ffc003) *)
+Definition dirpat (d : string) : string := esc_glob (dirname d).
+Definition pat_all (d : string) : string := esc_glob (prefix_of d) ++ "*.dat".        (* globPattern *)
 Definition pat_latest (d : string) (day : option string) : string :=                   (* latestToday *)
-  match day with Some dd => prefix_of d ++ "." ++ dd ++ "*.*.dat" | None => prefix_of d ++ ".*.*.dat" end.
+  match day with Some dd => esc_glob (prefix_of d) ++ "." ++ dd ++ "*.*.dat" | None => esc_glob (prefix_of d) ++ ".*.*.dat" end.
 
 (* ---- queries ------------------------------------------------------------------------------ *)
 (* FindByRequestID: "" is refused; matches in reverse byte order of the full path; first file whose last
@@ -311,40 +351,48 @@ Definition find_in (g : gres) (req : string) : fres :=
       | [] => FNone
       end
   end.
-Definition q_find (st : fs) (d req : string) : fres := find_in (glob st (dirname d) (pat_all d)) req.
+Definition q_find (st : fs) (d req : string) : fres := find_in (glob st (dirpat d) (pat_all d)) req.
 
 (* ReadStatusToday (day = Some yyyymmdd when latestStatusToday is configured) *)
+(* 3aa388e: the files newest first; the first one that loads is the answer, files without a parseable status are skipped *)
+Fixpoint load_first (c : cache) (st : fs) (l : list fent) : cache * lres :=
+  match l with
+  | [] => (c, LNoData)                                  (* ErrNoStatusData *)
+  | e :: r => match load_latest c st (e_dir e) (e_name e) with
+              | (c', Some p) => (c', LOk p)
+              | (c', None) => load_first c' st r
+              end
+  end.
 Definition latest_of (c : cache) (st : fs) (g : gres) : cache * lres :=
   match g with
   | GErr | GOk [] => (c, LNoData)
-  | GOk l => match filter_latest l 1 with
-             | e :: _ => match load_latest c st (e_dir e) (e_name e) with
-                         | (c', Some p) => (c', LOk p)
-                         | (c', None) => (c', LErr)
-                         end
-             | [] => (c, LNoData)
-             end
+  | GOk l => load_first c st (filter_latest l (List.length l))
   end.
 Definition q_latest (c : cache) (st : fs) (d : string) (day : option string) : cache * lres :=
-  latest_of c st (glob st (dirname d) (pat_latest d day)).
+  latest_of c st (glob st (dirpat d) (pat_latest d day)).
 
-(* ReadStatusRecent n: files that fail to load are skipped (their slot is lost) *)
-Fixpoint load_all (c : cache) (st : fs) (l : list fent) : cache * list payload :=
+(* ReadStatusRecent n (3aa388e): the files newest first, loaded until n statuses are collected; files that fail to load are skipped
+   and do not use up a slot *)
+Fixpoint load_upto (c : cache) (st : fs) (l : list fent) (n : nat) {struct l} : cache * list payload :=
   match l with
   | [] => (c, [])
-  | e :: r => match load_latest c st (e_dir e) (e_name e) with
-              | (c', Some p) => let (c'', ps) := load_all c' st r in (c'', p :: ps)
-              | (c', None) => load_all c' st r
-              end
+  | e :: r =>
+      match n with
+      | O => (c, [])
+      | S n' => match load_latest c st (e_dir e) (e_name e) with
+                | (c', Some p) => let (c'', ps) := load_upto c' st r n' in (c'', p :: ps)
+                | (c', None) => load_upto c' st r n
+                end
+      end
   end.
 Definition recent_of (c : cache) (st : fs) (g : gres) (n : nat) : cache * list payload :=
   match g with
   | GErr => (c, [])
   | GOk [] => (c, [])
-  | GOk l => load_all c st (filter_latest l n)
+  | GOk l => load_upto c st (filter_latest l (List.length l)) n
   end.
 Definition q_recent (c : cache) (st : fs) (d : string) (n : nat) : cache * list payload :=
-  recent_of c st (glob st (dirname d) (pat_all d)) n.
+  recent_of c st (glob st (dirpat d) (pat_all d)) n.
 
 (* ---- the recording process ---------------------------------------------------------------- *)
 (* writer: target path (used by Close), where the open descriptor's file now lives (None once unlinked;
@@ -363,7 +411,7 @@ Inductive op :=
 | OTouch (d stamp r8 : string) (c : bool) (t : Z).   (* os.Chtimes on one history file (environment) *)
 
 Definition glob_list (st : fs) (d : string) : list fent :=
-  match glob st (dirname d) (pat_all d) with GOk l => l | GErr => [] end.
+  match glob st (dirpat d) (pat_all d) with GOk l => l | GErr => [] end.
 
 Definition prims (o : op) (h : hstate) : list prim :=
   let st := hfs h in
@@ -401,7 +449,7 @@ Definition prims (o : op) (h : hstate) : list prim :=
       end
   | ORename d d' =>
       if has_dir st (dirname d) then
-        match glob st (dirname d) (pat_all d) with
+        match glob st (dirpat d) (pat_all d) with
         | GErr => [PMkdir (dirname d')]                       (* the pattern error is returned after MkdirAll *)
         | GOk l =>
             [PMkdir (dirname d')]
